@@ -6,6 +6,7 @@ Simulator.propagateAll() once and reads every output with Wire.get().  Every ope
 (a,b) and (b,a) so that commutativity is judged on real outputs.  The oracle uses fractions.Fraction on the decoded
 operands only; nothing from py4hw.helper is called.
 """
+import itertools
 import math
 import time
 from fractions import Fraction
@@ -20,7 +21,8 @@ RULE = ('operand pairs of normal single-precision encodings: every exponent gap 
         'operands, random pairs; integers 0, +-1, +-2**k, +-(2**k +- 1), INT_MIN, INT_MAX, 2**24 +- 1, random of every bit length; '
         'float->int operands with exponent fields 100..165 x mantissa boundaries, exact odd/even integers, k+0.5, +-2**31 neighbours. '
         'evaluations = block outputs judged.  Non-trivial: operand pair with exponent gap >= 1 or opposite signs; integer with >= 25 '
-        'significant bits; float->int operand with |x| >= 1.  Distinct by content (a, b | integer | pattern); in the thorough tier only the cases whose content '
+        'significant bits; float->int operand with |x| >= 1.  Output-width class: a reduced pass (every 32nd pair; 64th in thorough) with all flag '
+        'output wires 2, 4 and 8 bits wide, same judges.  Distinct by content (a, b | integer | pattern); in the thorough tier only the cases whose content '
         'hash is 0 mod 4 are registered, so distinct_nontrivial is a lower bound there (keeps the merged set small)')
 SHARDS = {'quick': 1, 'thorough': 16}
 TIMEOUT = {'quick': 600, 'thorough': 3000}
@@ -122,16 +124,19 @@ def adder_datapath(a, b, ediff_bits):
 # --------------------------------------------------------------------------- the circuit
 
 class Rig:
-    def __init__(self):
+    def __init__(self, fw=1):
+        # fw = width of every flag output wire (gt/eq/lt of both comparators, p_lost of InttoFP_SP, p_lost/denorm/invalid of
+        # FPtoInt_SP).  A flag wire wider than one bit is legal -- the 0/1 is zero-extended into it.
+        self.fw = fw
         import py4hw
         hw = py4hw.HWSystem()
         W = hw.wire
         self.a, self.b, self.ia, self.fa = W('a', 32), W('b', 32), W('ia', 32), W('fa', 32)
         self.radd, self.rmul = W('radd', 32), W('rmul', 32)
-        self.cmp = [W(n) for n in ('gt', 'eq', 'lt')]
-        self.cmpabs = [W(n) for n in ('agt', 'aeq', 'alt')]
-        self.fi, self.i_lost = W('fi', 32), W('i_lost')
-        self.fo, self.f_lost, self.f_denorm, self.f_invalid = W('fo', 32), W('f_lost'), W('f_denorm'), W('f_invalid')
+        self.cmp = [W(n, fw) for n in ('gt', 'eq', 'lt')]
+        self.cmpabs = [W(n, fw) for n in ('agt', 'aeq', 'alt')]
+        self.fi, self.i_lost = W('fi', 32), W('i_lost', fw)
+        self.fo, self.f_lost, self.f_denorm, self.f_invalid = W('fo', 32), W('f_lost', fw), W('f_denorm', fw), W('f_invalid', fw)
         with muted():
             py4hw.FPAdder_SP(hw, 'add', self.a, self.b, self.radd)
             py4hw.FPMult_SP(hw, 'mul', self.a, self.b, self.rmul)
@@ -154,14 +159,13 @@ class Rig:
                     f2i=self.fo.get(), f_lost=self.f_lost.get(), f_invalid=self.f_invalid.get(), f_denorm=self.f_denorm.get())
 
 
-_RIG = None
+_RIGS = {}
 
 
-def rig():
-    global _RIG
-    if _RIG is None:
-        _RIG = Rig()
-    return _RIG
+def rig(fw=1):
+    if fw not in _RIGS:
+        _RIGS[fw] = Rig(fw)
+    return _RIGS[fw]
 
 
 # --------------------------------------------------------------------------- judges (pure: observed outputs -> violations)
@@ -529,6 +533,7 @@ class Stats(dict):
 
 NT_SUBSAMPLE = 4     # thorough tier: only cases with content hash = 0 mod 4 are registered as distinct non-trivial (lower bound)
 PER_MECHANISM = 3
+FLAG_WIDTHS = (2, 4, 8)
 
 
 def report(run, case, viols):
@@ -549,6 +554,8 @@ def run_check(run, tier, seed, shard):
                'the bound is 2 ulp of the operand of larger magnitude; sums that are exactly zero or not normal are not judged')
     run.assume('FPtoInt_SP: |x| >= 2**31 (including -2**31) must raise invalid; below that invalid must be 0, r = trunc(x) mod 2**32, '
                'p_lost <=> x is not an integer')
+    run.assume('flag outputs (gt/eq/lt, p_lost, invalid, denorm) on wires wider than one bit must read the zero-extended 0/1; denorm itself is '
+               'only required to be 0 or 1 (the statement says nothing about its value)')
     run.assume('InttoFP_SP: value = the integer truncated toward zero to 24 significant bits (compared as a rational, so +0 and -0 words '
                'both stand for 0), p_lost <=> a non-zero bit was discarded')
     R = rig()
@@ -603,6 +610,41 @@ def run_check(run, tier, seed, shard):
         if npairs % 2503 == 1:
             run.sample(dict(kind='step', pair_class=cls, a=hex(b), b=hex(a), exponent_gap=gap, ia=i, fa=hex(f), note='second step of the pair (operands swapped)',
                             observed={k: (hex(v) if isinstance(v, int) and v > 9 else v) for k, v in (outs[1] if outs else {}).items()}))
+    # ---- output-width class: the same blocks with every flag output on a wire of 2, 4, 8 bits (1 bit is the main pass above);
+    # each flag must still read the zero-extended 0/1, so the same judges apply unchanged
+    wide = Stats()
+    stride = 32 if tier == 'quick' else 64
+    for fw in FLAG_WIDTHS:
+        if run.too_many or time.time() > deadline:
+            break
+        try:
+            Rw = rig(fw)
+        except Exception as e:
+            run.violation('fp_build_raises', dict(relation='raises:' + type(e).__name__, flag_wires='%d_bits' % fw), dict(kind='build', flag_width=fw),
+                          observed=repr(e)[:200], what='the five blocks with %d-bit flag wires do not build: %r' % (fw, e))
+            continue
+        wstats = Stats()
+        for a, b, cls in itertools.islice(pair_cases(tier, seed, shard), fw % stride, None, stride):
+            for x, y in ((a, b), (b, a)):
+                i, f = next(ints), next(f2is)
+                out = Rw.step(x, y, i, f)
+                viols = judge_pair(x, y, out, wstats) + judge_int(i, out, wstats) + judge_f2i(f, out, wstats)
+                if out['f_denorm'] > 1:
+                    viols.append(V('fptoint_denorm', dict(block='FPtoInt_SP', clause='denorm_flag_is_0_or_1', relation='upper_bits_of_flag_wire_set'), '0 or 1', out['f_denorm'],
+                                   'FPtoInt_SP x=%#010x: denorm flag on a %d-bit wire reads %d' % (f, fw, out['f_denorm'])))
+                run.ev(6)
+                wide['steps_%d_bit_flags' % fw] += 1
+                if viols:
+                    flags = [out['i_lost'], out['f_lost'], out['f_invalid'], out['f_denorm']] + list(out['cmp']) + list(out['cmpabs'])
+                    for v in viols:
+                        v['fields']['flag_wires'] = '%d_bits' % fw
+                        v['what'] += ' [all flag wires %d bits wide]' % fw
+                        if any(t > 1 for t in flags):
+                            v['fields']['upper_bits_of_a_flag_wire_set'] = True
+                    report(run, dict(kind='step', a=hex(x), b=hex(y), ia=i, fa=hex(f), flag_width=fw), viols)
+            if run.too_many:
+                break
+    run.extra['wide_flag_wire_pass'] = dict(wide)
     run.extra['blocks_in_one_system'] = ['FPAdder_SP', 'FPMult_SP', 'FPComparator_SP', 'FPComparator_SP(absolute)', 'InttoFP_SP', 'FPtoInt_SP']
     run.extra['leaves_per_propagate'] = '%d leaf blocks evaluated by every propagateAll()' % R.leaves
     run.extra['operand_pairs'] = npairs
@@ -636,7 +678,7 @@ def _floors(run, stats, gaps):
 
 def replay(run, case):
     c = case['case']
-    R = rig()
+    R = rig(c.get('flag_width', 1))
     stats = Stats()
     hexi = lambda v: int(v, 16) if isinstance(v, str) else v
     viols = []
